@@ -76,6 +76,10 @@ def main():
     docs = [d for _, d in common.documents(a.seed + 5, 3 if a.tier != "thorough" else 10, {"str-special", "lang", "qname-object", "repeat-id", "formal-optional"}, max_records=3)]
     root = tempfile.mkdtemp(prefix="c17_", dir="/var/tmp")
     cwd = os.getcwd()
+    # the library's temporary files (left behind when a write fails) go into a directory of this run
+    old_tempdir = tempfile.tempdir
+    os.makedirs(os.path.join(root, "tmp"))
+    tempfile.tempdir = os.path.join(root, "tmp")
     try:
         # ---- exactness
         for fmt in FORMATS:
@@ -176,6 +180,7 @@ def main():
     finally:
         os.chdir(cwd)
         pm.os.fdopen, pm.shutil.move = os.fdopen, shutil.move
+        tempfile.tempdir = old_tempdir
         shutil.rmtree(root, ignore_errors=True)
     if a.replay:
         info = json.load(open(a.replay))
